@@ -12,7 +12,9 @@ LEVEL = "proof"
 def site_program(rng):
     """A program with shared property/invoke/super sites reached by a random history of receiver
     classes (field, method, field shadowing a method, neither, non-instances, classes created and
-    dropped in a loop).  Expected output follows from the slow-path rules, computed here."""
+    dropped in a loop).  Expected output follows from the slow-path rules, computed here.
+    Returns {"prelude": [lines], "events": [(line, expected output line)]}; every event is
+    independent of the others (fresh receivers), so any subset is a program with known output."""
     ncls = rng.randint(2, 6)
     lines, shapes = [], []
     for c in range(ncls):
@@ -42,6 +44,10 @@ def site_program(rng):
     lines.append("fn getf(o) { return o.f; }")
     lines.append("fn callf(o) { return o.f(); }")
     lines.append("fn setg(o, v) { o.g = v; return o.g; }")
+    # the same write as an expression whose value is used: what the site leaves on the stack is observed
+    lines.append("fn setv(o, v) { return o.g = v; }")
+    lines.append("fn addv(o, v) { return o.g += v; }")
+    lines.append("fn chain(a, b, v) { let r = a.g = b.g = v; return r + a.g + b.g; }")
     lines.append("fn callh(o) { return o.h(); }")
     lines.append("fn show(x) { if x == nil { print(\"nil\"); } else { print(x); } }")
     # a class declaration evaluated many times with different super classes: its super sites are
@@ -51,11 +57,12 @@ def site_program(rng):
     lines.append("    h() { return super.h() + 1000; }")
     lines.append("    hm() { let m = super.h; return m() + 2000; }")
     lines.append("    gg() { return self.g; }")
+    lines.append("    sg(v) { return 3000 + (self.g = v); }")
     lines.append("  }")
     lines.append("  return D;")
     lines.append("}")
     lines.append("fn callhm(o) { return o.hm(); }")
-    exp = []
+    events = []
 
     def has_method_f(c):
         while True:
@@ -72,78 +79,443 @@ def site_program(rng):
             return 700 + c
         return hval(c - 1) + 1
 
+    def ev(line, exp):
+        events.append((line, str(exp)))
+
     n = rng.randint(6, 24)
+    c = 0
     for i in range(n):
-        c = rng.randrange(ncls)
+        # a site hits when the class it saw last arrives again: repeat the previous class half of the time
+        if i == 0 or rng.random() < 0.5:
+            c = rng.randrange(ncls)
         shape, parent = shapes[c]
-        kind = rng.choice(["get", "call", "set", "h", "call", "get", "mk", "mk"])
+        kind = rng.choice(["get", "call", "set", "h", "call", "get", "mk", "mk", "setv", "addv", "chain", "setv"])
         if kind == "mk":
-            form = rng.choice(["h", "hm", "gg", "hh"])
+            form = rng.choice(["h", "hm", "gg", "hh", "sg"])
             if form == "h":
-                lines.append("show(callh(mk(K%d)()));" % c)
-                exp.append(str(hval(c) + 1000))
+                ev("show(callh(mk(K%d)()));" % c, hval(c) + 1000)
             elif form == "hm":
-                lines.append("show(callhm(mk(K%d)()));" % c)
-                exp.append(str(hval(c) + 2000))
+                ev("show(callhm(mk(K%d)()));" % c, hval(c) + 2000)
             elif form == "hh":
-                lines.append("show(callh(mk(mk(K%d))()));" % c)
-                exp.append(str(hval(c) + 2000))
+                ev("show(callh(mk(mk(K%d))()));" % c, hval(c) + 2000)
+            elif form == "sg":
+                v = rng.randint(0, 99)
+                ev("show(mk(K%d)().sg(%d));" % (c, v), 3000 + v)
             else:
-                lines.append("show(mk(K%d)().gg());" % c)
-                exp.append(str(500 + c))
+                ev("show(mk(K%d)().gg());" % c, 500 + c)
             continue
         if kind == "get":
             if shape == "field":
-                lines.append("show(getf(K%d()));" % c)
-                exp.append(str(100 + c))
+                ev("show(getf(K%d()));" % c, 100 + c)
             elif shape == "shadow":
-                lines.append("show(getf(K%d())());" % c)
-                exp.append(str(300 + c))
+                ev("show(getf(K%d())());" % c, 300 + c)
             elif has_method_f(c) is not None:
-                lines.append("show(getf(K%d())());" % c)
-                exp.append(str(has_method_f(c)))
+                ev("show(getf(K%d())());" % c, has_method_f(c))
             else:
-                lines.append("try { show(getf(K%d())); } catch e: Error { print(\"err\"); }" % c)
-                exp.append("err")
+                ev("try { show(getf(K%d())); } catch e: Error { print(\"err\"); }" % c, "err")
         elif kind == "call":
             if shape == "shadow":
-                lines.append("show(callf(K%d()));" % c)
-                exp.append(str(300 + c))
+                ev("show(callf(K%d()));" % c, 300 + c)
             elif shape == "field":
-                lines.append("try { show(callf(K%d())); } catch e: Error { print(\"err\"); }" % c)
-                exp.append("err")
+                ev("try { show(callf(K%d())); } catch e: Error { print(\"err\"); }" % c, "err")
             elif has_method_f(c) is not None:
-                lines.append("show(callf(K%d()));" % c)
-                exp.append(str(has_method_f(c)))
+                ev("show(callf(K%d()));" % c, has_method_f(c))
             else:
-                lines.append("try { show(callf(K%d())); } catch e: Error { print(\"err\"); }" % c)
-                exp.append("err")
+                ev("try { show(callf(K%d())); } catch e: Error { print(\"err\"); }" % c, "err")
         elif kind == "set":
             v = rng.randint(0, 99)
-            lines.append("show(setg(K%d(), %d));" % (c, v))
-            exp.append(str(v))
+            ev("show(setg(K%d(), %d));" % (c, v), v)
+        elif kind == "setv":
+            v = rng.randint(0, 99)
+            ev("show(setv(K%d(), %d));" % (c, v), v)
+        elif kind == "addv":
+            v = rng.randint(0, 99)
+            ev("show(addv(K%d(), %d));" % (c, v), 500 + c + v)
+        elif kind == "chain":
+            v = rng.randint(0, 99)
+            c2 = c if rng.random() < 0.6 else rng.randrange(ncls)
+            ev("show(chain(K%d(), K%d(), %d));" % (c, c2, v), 3 * v)
         else:
-            lines.append("show(callh(K%d()));" % c)
-            exp.append(str(hval(c)))
+            ev("show(callh(K%d()));" % c, hval(c))
         if rng.random() < 0.15:
             # non-instance receivers at the same sites
-            lines.append("try { show(callf(%s)); } catch e: Error { print(\"err\"); }" % rng.choice(["1", "nil", '"s"', "[1]"]))
-            exp.append("err")
+            ev("try { show(callf(%s)); } catch e: Error { print(\"err\"); }" % rng.choice(["1", "nil", '"s"', "[1]"]), "err")
         if rng.random() < 0.1:
-            lines.append("try { show(setg(%s, 1)); } catch e: Error { print(\"err\"); }" % rng.choice(["1", "nil", '"s"']))
-            exp.append("err")
+            ev("try { show(%s(%s, 1)); } catch e: Error { print(\"err\"); }" % (rng.choice(["setg", "setv", "addv"]), rng.choice(["1", "nil", '"s"'])), "err")
     # class churn through the same sites: classes created and dropped at run time
     k = rng.randint(3, 30)
-    lines.append("let acc = 0;")
-    lines.append("for i in %d.times() {" % k)
-    lines.append("  class T { init() { self.f = i; self.g = i; } h() { return i * 2; } }")
-    lines.append("  let o = T();")
-    lines.append("  acc = acc + getf(o) + setg(o, i + 1) + callh(o);")
-    lines.append("  let junk = [\"j${i}\", [i], {\"k\": i}];")
-    lines.append("}")
-    lines.append("print(acc);")
-    exp.append(str(sum(i + (i + 1) + 2 * i for i in range(k))))
-    return "\n".join(lines) + "\n", "\n".join(exp) + "\n"
+    ev("let acc = 0; for i in %d.times() { class T { init() { self.f = i; self.g = i; } h() { return i * 2; } } let o = T(); "
+       "acc = acc + getf(o) + setg(o, i + 1) + callh(o) + setv(o, i + 2) + setv(o, i + 3) + addv(o, 4); "
+       "let junk = [\"j${i}\", [i], {\"k\": i}]; } print(acc);" % k,
+       sum(i + (i + 1) + 2 * i + (i + 2) + (i + 3) + (i + 7) for i in range(k)))
+    return {"kind": "sites", "prelude": lines, "events": events}
+
+
+def render_sites(prog, events=None):
+    events = prog["events"] if events is None else events
+    return "\n".join(prog["prelude"] + [l for l, _ in events]) + "\n", "".join(e + "\n" for _, e in events)
+
+
+# ------------------------------------------------------------------------------------------------
+# write-expression site histories.  A property write is an expression; its value is the assigned
+# value on the first execution of the site (fill) and on every later one (hit).  The programs keep a
+# pool of long-lived instances, send them through shared write sites of every syntactic form whose
+# value is used, and print both the value of each write expression and, at the end, every field.
+
+class _Err(Exception):
+    pass
+
+
+def _vsrc(v):
+    if v is None:
+        return "nil"
+    if isinstance(v, bool):
+        return "true" if v else "false"
+    if isinstance(v, str):
+        return '"%s"' % v
+    return str(v)
+
+
+def _vout(v):
+    if v is None:
+        return "nil"
+    if isinstance(v, bool):
+        return "true" if v else "false"
+    return str(v)
+
+
+W_FIELDS = ["a", "b", "c"]
+# name -> (declaration, number of receivers, needs a numeric value)
+W_SITES = {
+    "wa": ("fn wa(o, v) { return o.a = v; }", 1, False),                       # plain, returned
+    "wb": ("fn wb(o, v) { return o.b = v; }", 1, False),
+    "wc": ("let wc = |o, v| o.c = v;", 1, False),                              # lambda body
+    "inca": ("fn inca(o, v) { return o.a += v; }", 1, True),                   # compound, returned
+    "arb": ("fn arb(o, v) { return 1000 + (o.b += v); }", 1, True),            # compound inside arithmetic
+    "ch": ("fn ch(p, q, v) { return p.a = q.b = v; }", 2, False),              # chained
+    "arg": ("fn arg(o, v) { return ident(o.c = v); }", 1, False),              # call argument
+    "loc": ("fn loc(o, v) { let t = o.b = v; return t; }", 1, False),          # initialiser of a local
+    "two": ("fn two(o, v) { return (o.a = v) + (o.b = v + 1); }", 1, True),    # two writes in one expression
+    "lst": ("fn lst(o, v) { let l = [o.c = v, o.a = v]; return l[0]; }", 1, False),  # list elements
+    "st": ("fn st(o, v) { o.a = v; return o.a; }", 1, False),                  # statement form (value dropped)
+}
+
+
+def _w_classes(rng):
+    ncls = rng.randint(2, 5)
+    classes = []
+    for c in range(ncls):
+        parent = rng.randrange(c) if c > 0 and rng.random() < 0.45 else None
+        inherited = list(classes[parent]["fields"]) if parent is not None else []
+        own = [f for f in rng.sample(W_FIELDS, rng.randint(1, 3)) if f not in inherited]
+        if parent is not None and rng.random() < 0.25:
+            own = []
+        fields = inherited + own
+        meths = {}
+        for f in fields:
+            if rng.random() < 0.5:
+                meths["set" + f] = ("set", f)
+            if rng.random() < 0.35:
+                meths["inc" + f] = ("inc", f)
+        # a method named like a field the class does not have: writes never look at methods
+        for f in W_FIELDS:
+            if f not in fields and rng.random() < 0.25:
+                meths[f] = ("const", f)
+        classes.append({"parent": parent, "own": own, "fields": fields, "meths": meths,
+                        "init": {f: 10 * c + k for k, f in enumerate(own)}})
+    return classes
+
+
+def _w_class_src(c, cl):
+    out = ["class W%d%s {" % (c, "" if cl["parent"] is None else " : W%d" % cl["parent"])]
+    if cl["own"] or cl["parent"] is None:
+        out.append("  init() {")
+        if cl["parent"] is not None:
+            out.append("    super.init();")
+        for f in cl["own"]:
+            out.append("    self.%s = %d;" % (f, cl["init"][f]))
+        out.append("  }")
+    for name, (kind, f) in sorted(cl["meths"].items()):
+        if kind == "set":
+            out.append("  %s(v) { return self.%s = v; }" % (name, f))
+        elif kind == "inc":
+            out.append("  %s(v) { return self.%s += v; }" % (name, f))
+        else:
+            out.append("  %s() { return 1; }" % name)
+    out.append("}")
+    return out
+
+
+def write_program(rng):
+    """{"kind": "writes", "classes", "pool": [class index per long-lived instance], "events": [...]}.
+    The expected output is computed by `render_writes` (a monitor applying the slow-path rules), for
+    any sub-list of the events."""
+    classes = _w_classes(rng)
+    pool = [rng.randrange(len(classes)) for _ in range(rng.randint(2, 6))]
+    # make sure some class has two instances: a hit with another instance of the same class
+    pool.append(rng.choice(pool))
+    sites = rng.sample(sorted(W_SITES), rng.randint(3, len(W_SITES)))
+    events, last = [], {}
+
+    def pick(site):
+        """an instance index; repeats the class this site saw last more often than not (hits)"""
+        if site in last and rng.random() < 0.6:
+            same = [k for k, c in enumerate(pool) if c == last[site]]
+            k = rng.choice(same)
+        else:
+            k = rng.randrange(len(pool))
+        last[site] = pool[k]
+        return k
+
+    def value(numeric):
+        r = rng.random()
+        if numeric or r < 0.8:
+            return rng.randint(0, 99)
+        return rng.choice(["s%d" % rng.randint(0, 9), None, True, False])
+
+    for _ in range(rng.randint(8, 30)):
+        r = rng.random()
+        if r < 0.62:
+            site = rng.choice(sites)
+            _, nrecv, numeric = W_SITES[site]
+            recv = [("p", pick(site if j == 0 else site + "#2")) for j in range(nrecv)]
+            if rng.random() < 0.06:
+                recv[rng.randrange(nrecv)] = ("lit", rng.choice(["1", "nil", '"s"', "[1]", "true"]))
+            events.append({"k": "call", "site": site, "recv": recv, "v": value(numeric)})
+        elif r < 0.74:
+            # a method whose body writes through `self` (by name when the class has an explicit superclass)
+            k = rng.randrange(len(pool))
+            ms = _w_methods(classes, pool[k])
+            ms = [m for m, (kind, _) in sorted(ms.items()) if kind != "const"]
+            if ms:
+                events.append({"k": "meth", "obj": k, "m": rng.choice(ms), "v": rng.randint(0, 99)})
+        elif r < 0.80:
+            events.append({"k": "loop_call", "site": rng.choice(sites), "obj": rng.randrange(len(pool)), "n": rng.randint(2, 5)})
+        elif r < 0.86:
+            events.append({"k": "loop_show", "obj": rng.randrange(len(pool)), "f": rng.choice(W_FIELDS), "n": rng.randint(2, 5)})
+        elif r < 0.91:
+            events.append({"k": "loop_chain", "p": rng.randrange(len(pool)), "q": rng.randrange(len(pool)),
+                           "f": rng.choice(W_FIELDS), "g": rng.choice(W_FIELDS), "n": rng.randint(2, 5)})
+        elif r < 0.96:
+            events.append({"k": "loop_sum", "obj": rng.randrange(len(pool)), "f": rng.choice(W_FIELDS), "n": rng.randint(2, 5)})
+        else:
+            events.append({"k": "churn", "n": rng.randint(2, 8), "sites": [s for s in sites if s in ("wa", "wb", "inca", "st")]})
+    return {"kind": "writes", "classes": classes, "pool": pool, "events": events}
+
+
+def _w_methods(classes, c):
+    ms = {}
+    chain = []
+    while c is not None:
+        chain.append(c)
+        c = classes[c]["parent"]
+    for c in reversed(chain):
+        ms.update(classes[c]["meths"])
+    return ms
+
+
+def render_writes(prog, events=None, stats=None):
+    """Source and expected output of the program made of `events` (default: all).  The monitor: an
+    instance is a dict of its class's fields; `o.f = v` on an instance whose class has field f stores v
+    and evaluates to v, otherwise raises (caught and printed as `err`); `o.f += v` reads, adds, writes.
+    `stats`, if given, receives how many write-site executions were first/hit/refill according to the
+    per-site entry rule (fill on a miss that finds the field) — distribution counters only."""
+    classes, pool = prog["classes"], prog["pool"]
+    events = prog["events"] if events is None else events
+    lines = []
+    for c, cl in enumerate(classes):
+        lines += _w_class_src(c, cl)
+    lines.append("fn show(x) { if x == nil { print(\"nil\"); } else { print(x); } }")
+    lines.append("fn ident(x) { return x; }")
+    for name in sorted(W_SITES):
+        lines.append(W_SITES[name][0])
+    objs = []
+    for k, c in enumerate(pool):
+        lines.append("let p%d = W%d();" % (k, c))
+        o = {"cls": c, "fields": {}}
+        cc, chain = c, []
+        while cc is not None:
+            chain.append(cc)
+            cc = classes[cc]["parent"]
+        for cc in reversed(chain):
+            o["fields"].update(classes[cc]["init"])
+        objs.append(o)
+    exp = []
+    entry = {}
+
+    def note(site, o):
+        if stats is None:
+            return
+        key = o["cls"] if isinstance(o["cls"], int) else id(o)
+        if site not in entry:
+            stats["first"] = stats.get("first", 0) + 1
+        elif entry[site] == key:
+            stats["hit"] = stats.get("hit", 0) + 1
+        else:
+            stats["refill"] = stats.get("refill", 0) + 1
+        entry[site] = key
+
+    def wr(site, o, f, v):
+        if o is None or f not in o["fields"]:
+            if stats is not None:
+                stats["error"] = stats.get("error", 0) + 1
+            raise _Err()
+        note(site, o)
+        o["fields"][f] = v
+        return v
+
+    def rd(o, f):
+        if o is None or f not in o["fields"]:
+            raise _Err()
+        return o["fields"][f]
+
+    def add(x, v):
+        if isinstance(x, bool) or not isinstance(x, int):
+            raise _Err()
+        return x + v
+
+    def call(site, os_, v):
+        o = os_[0]
+        if site == "wa":
+            return wr(site, o, "a", v)
+        if site == "wb":
+            return wr(site, o, "b", v)
+        if site == "wc":
+            return wr(site, o, "c", v)
+        if site == "inca":
+            return wr(site, o, "a", add(rd(o, "a"), v))
+        if site == "arb":
+            return 1000 + wr(site, o, "b", add(rd(o, "b"), v))
+        if site == "ch":
+            return wr("ch.a", o, "a", wr("ch.b", os_[1], "b", v))
+        if site == "arg":
+            return wr(site, o, "c", v)
+        if site == "loc":
+            return wr(site, o, "b", v)
+        if site == "two":
+            x = wr("two.a", o, "a", v)
+            return x + wr("two.b", o, "b", v + 1)
+        if site == "lst":
+            x = wr("lst.c", o, "c", v)
+            wr("lst.a", o, "a", v)
+            return x
+        if site == "st":
+            wr(site, o, "a", v)
+            return rd(o, "a")
+        raise AssertionError(site)
+
+    def guarded(line, f):
+        """the statement inside try/catch; expected output: what `f` yields, `err` appended if it raises"""
+        lines.append("try { %s } catch e: Error { print(\"err\"); }" % line)
+        out = []
+        try:
+            f(out)
+        except _Err:
+            out.append("err")
+        exp.extend(out)
+
+    uid = 0
+    for e in events:
+        uid += 1
+        if e["k"] == "call":
+            os_ = [objs[k] if t == "p" else None for t, k in e["recv"]]
+            args = ", ".join(("p%d" % k) if t == "p" else k for t, k in e["recv"])
+            guarded("show(%s(%s, %s));" % (e["site"], args, _vsrc(e["v"])),
+                    lambda out, e=e, os_=os_: out.append(_vout(call(e["site"], os_, e["v"]))))
+        elif e["k"] == "meth":
+            o = objs[e["obj"]]
+            kind, f = _w_methods(classes, o["cls"])[e["m"]]
+            # the site inside the method body is shared by every class that inherits the method
+            site = "m.%s" % e["m"]
+            if kind == "set":
+                guarded("show(p%d.%s(%d));" % (e["obj"], e["m"], e["v"]),
+                        lambda out, o=o, f=f, e=e, site=site: out.append(_vout(wr(site, o, f, e["v"]))))
+            else:
+                guarded("show(p%d.%s(%d));" % (e["obj"], e["m"], e["v"]),
+                        lambda out, o=o, f=f, e=e, site=site: out.append(_vout(wr(site, o, f, add(rd(o, f), e["v"])))))
+        elif e["k"] == "loop_call":
+            site = e["site"]
+            nrecv = W_SITES[site][1]
+            o = objs[e["obj"]]
+
+            def run_loop(out, site=site, o=o, n=e["n"], nrecv=nrecv):
+                for i in range(n):
+                    out.append(_vout(call(site, [o] * nrecv, i + 3)))
+            guarded("for i in %d.times() { show(%s(%s, i + 3)); }" % (e["n"], site, ", ".join(["p%d" % e["obj"]] * nrecv)), run_loop)
+        elif e["k"] == "loop_show":
+            o = objs[e["obj"]]
+
+            def run_loop(out, o=o, f=e["f"], n=e["n"], site="top%d" % uid):
+                for i in range(n):
+                    out.append(_vout(wr(site, o, f, i + 5)))
+            guarded("for i in %d.times() { show(p%d.%s = i + 5); }" % (e["n"], e["obj"], e["f"]), run_loop)
+        elif e["k"] == "loop_chain":
+            p, q = objs[e["p"]], objs[e["q"]]
+
+            def run_loop(out, p=p, q=q, f=e["f"], g=e["g"], n=e["n"], site="top%d" % uid):
+                for i in range(n):
+                    wr(site + ".p", p, f, wr(site + ".q", q, g, i * 10))
+            guarded("for i in %d.times() { p%d.%s = p%d.%s = i * 10; }" % (e["n"], e["p"], e["f"], e["q"], e["g"]), run_loop)
+        elif e["k"] == "loop_sum":
+            o = objs[e["obj"]]
+
+            def run_loop(out, o=o, f=e["f"], n=e["n"], site="top%d" % uid):
+                t = 0
+                for i in range(n):
+                    t = t + wr(site, o, f, add(rd(o, f), 2))
+                out.append(_vout(t))
+            guarded("let t = 0; for i in %d.times() { t = t + (p%d.%s += 2); } show(t);" % (e["n"], e["obj"], e["f"]), run_loop)
+        elif e["k"] == "churn":
+            # classes created and dropped at run time through the shared write sites: a fill, then a hit, per class
+            terms, tot = [], 0
+            for i in range(e["n"]):
+                o = {"cls": ("T", uid, i), "fields": {"b": 0, "a": i}}
+                for s_ in e["sites"]:
+                    tot += call(s_, [o], i + 1) + call(s_, [o], i + 2)
+                tot += wr("top%d" % uid, o, "b", i)
+            for s_ in e["sites"]:
+                terms.append("%s(o, i + 1) + %s(o, i + 2)" % (s_, s_))
+            terms.append("(o.b = i)")
+            lines.append("let acc%d = 0; for i in %d.times() { class T { init() { self.b = 0; self.a = i; } } let o = T(); acc%d = acc%d + %s; "
+                         "let junk = [\"j${i}\", [i]]; } show(acc%d);" % (uid, e["n"], uid, uid, " + ".join(terms), uid))
+            exp.append(_vout(tot))
+    # every field of every long-lived instance, read at sites of their own
+    for k, o in enumerate(objs):
+        for f in sorted(o["fields"]):
+            lines.append("show(p%d.%s);" % (k, f))
+            exp.append(_vout(o["fields"][f]))
+    return "\n".join(lines) + "\n", "".join(x + "\n" for x in exp)
+
+
+RENDER = {"sites": render_sites, "writes": render_writes}
+
+
+def _fails(prog, events, mode, tmp):
+    src, exp = RENDER[prog["kind"]](prog, events)
+    open(tmp, "w").write(src)
+    r = common.run_batch(["%s --steps 400000 %s" % (mode, tmp)])[0]
+    return (r["status"] != "Ok:0" or r["stdout"] != exp), src, exp, r
+
+
+def shrink(prog, mode, tmp, budget=250):
+    """Delta-debugging over the event list (the expected output is recomputed for every candidate)."""
+    events = list(prog["events"])
+    n = 2
+    runs = 0
+    while len(events) >= 2 and runs < budget:
+        chunk = max(1, len(events) // n)
+        reduced = False
+        for i in range(0, len(events), chunk):
+            cand = events[:i] + events[i + chunk:]
+            runs += 1
+            if cand and _fails(prog, cand, mode, tmp)[0]:
+                events, n, reduced = cand, max(n - 1, 2), True
+                break
+        if not reduced:
+            if chunk == 1:
+                break
+            n = min(len(events), n * 2)
+    return events
 
 
 def run(ctx):
@@ -154,51 +526,96 @@ def run(ctx):
                                         "output": out_c[-3000:]}, no_input=True)
         return
     ctx.cov["rule"] = ("(a) site-history programs: shared get/set/invoke/super sites reached by random histories over 2-6 classes (field, method, field "
-                       "shadowing a method, neither, inherited, non-instances) plus classes created and dropped in a loop; expected output from the "
-                       "slow-path rules; each run with caches on, forced off (hook), and under collection schedules incl. full collections at every "
-                       "allocation (address reuse); (b) generated programs and fixtures: caches on vs off must agree; non-trivial = program with a "
-                       "polymorphic site")
+                       "shadowing a method, neither, inherited, non-instances) plus classes created and dropped in a loop; (a') write-expression "
+                       "histories: long-lived instances of 2-5 classes (field subsets in different orders, inheritance) sent through shared write sites "
+                       "of every syntactic form whose value is used (returned, lambda body, compound, inside arithmetic, chained, call argument, local "
+                       "initialiser, list element, self-writes in methods, top-level loops), the value of every write expression and every field printed; "
+                       "expected output from the slow-path rules; each run with caches on, forced off (hook), and under collection schedules incl. full "
+                       "collections at every allocation (address reuse); (b) generated programs and fixtures: caches on vs off must agree; non-trivial = "
+                       "program with a polymorphic site")
+    broken = None
     if not proved:
-        what, detail = ctx.broken
+        # a proof obligation no longer holds (or the source no longer reads as the model's statements): search for a
+        # concrete failing input with a bigger budget; only if none is found report the obligation itself
+        broken = ctx.broken
+    concrete = _streams(ctx, boost=3 if (broken and ctx.quick()) else 1, broken=broken)
+    if broken and not concrete:
+        what, detail = broken
         ctx.violation("proof", {"kind": "proof-obligation-failed", "broken": what, "detail": detail}, no_input=True)
-    rng = random.Random(ctx.seed * 911 + 13)
-    d = os.path.join(common.VERIF, "work", "c13_%s" % ctx.tier)
-    os.makedirs(d, exist_ok=True)
-    progs = []
-    for k in range(ctx.n(300, 20000)):
-        src, exp = site_program(rng)
-        f = os.path.join(d, "s%d.lay" % k)
-        open(f, "w").write(src)
-        progs.append((f, src, exp))
-    # minimised past failures first
-    cdir = os.path.join(common.VERIF, "corpus", "C13")
-    for fn in sorted(os.listdir(cdir)) if os.path.isdir(cdir) else []:
-        if fn.endswith(".lay") and os.path.exists(os.path.join(cdir, fn[:-4] + ".exp")):
-            progs.append((os.path.join(cdir, fn), open(os.path.join(cdir, fn)).read(), open(os.path.join(cdir, fn[:-4] + ".exp")).read()))
-    modes = ["", "--caches-off", "--gc every:1 --full 1", "--gc every:3 --full 1", "--caches-off --gc every:2"]
-    if not ctx.quick():
-        modes += ["--gc every:2 --full 1", "--gc coin:1/3:%d --full 1" % ctx.seed, "--gc every:5"]
-    for mode in modes:
-        runs = common.run_batch(["%s --steps 400000 %s" % (mode, f) for f, _, _ in progs])
-        for (f, src, exp), r in zip(progs, runs):
-            ctx.count_case((src, mode), nontrivial=True)
-            if r["status"] != "Ok:0" or r["stdout"] != exp:
-                ctx.cov["impl_vs_spec_failures"] += 1
-                ctx.violation("sites", {"kind": "implementation-vs-spec",
-                                        "what": "a property/invoke/super site did not behave like the slow-path lookup",
-                                        "mode": mode or "default", "program": src, "expected": exp, "status": r["status"],
-                                        "stdout": r["stdout"], "stderr": r["stderr"][-600:]})
-                return
-        ctx.stream_stat("sites", programs=len(progs), runs=len(progs))
-    ctx.sample({"program": progs[0][1][:1500], "expected": progs[0][2]})
-    files = sched_stream.write_generated(ctx, ctx.n(120, 3000), "gen") + sched_stream.fixture_programs(ctx.n(260, None))
-    if not sched_stream.compare_modes(ctx, "cache_off", files, ["--caches-off"], steps=300000, what="inline caches being enabled"):
-        return
     ctx.assumptions += [
         "class tables are frozen once the class expression finished (C03 declareClass theorems) — the World of the model",
         "class addresses identify classes for as long as a slot caches them: the caches are traced as roots (D16 repair, 077cf99), so a cached class is not collected and its address not reused; C13_witness_address_reuse shows what happens otherwise, and the class-factory/class-churn part of the site stream under full collections at every allocation searches for it (that is how D16 was found)",
         "slot numbering is per module: a module is compiled once (files, imports) or, for the REPL's module, entry by entry with the ids continuing after those already handed out and the vectors grown in place (D13 repaired) — that the ids of a whole session are distinct and in range is C19's (C19_cache_ids_consecutive, C19_cache_slots_disjoint, C19_cache_slots_in_range), tied to the code by C19's sessions stream",
+        "the operand-stack statements of op_set_prop_by_name / op_get_prop_by_name are read from the Rust text path by path (Gen.CacheSites.paths) and interpreted by the model's SOp machine; the other statements of the four ops are pinned as text (C13_paths_eq_gen)",
     ]
+
+
+def _streams(ctx, boost=1, broken=None):
+    """Runs the streams; returns True iff a concrete failing input was reported."""
+    rng = random.Random(ctx.seed * 911 + 13)
+    d = os.path.join(common.VERIF, "work", "c13_%s" % ctx.tier)
+    os.makedirs(d, exist_ok=True)
+    progs = []      # (file, source, expected, structured program or None)
+    wstats = {}
+    for k in range(ctx.n(300, 20000) * boost):
+        prog = site_program(rng)
+        src, exp = render_sites(prog)
+        f = os.path.join(d, "s%d.lay" % k)
+        open(f, "w").write(src)
+        progs.append((f, src, exp, prog))
+    for k in range(ctx.n(300, 20000) * boost):
+        prog = write_program(rng)
+        src, exp = render_writes(prog, stats=wstats)
+        f = os.path.join(d, "w%d.lay" % k)
+        open(f, "w").write(src)
+        progs.append((f, src, exp, prog))
+    # minimised past failures first
+    cdir = os.path.join(common.VERIF, "corpus", "C13")
+    corpus = []
+    if not os.environ.get("C13_NO_CORPUS"):
+        for fn in sorted(os.listdir(cdir)) if os.path.isdir(cdir) else []:
+            if fn.endswith(".lay") and os.path.exists(os.path.join(cdir, fn[:-4] + ".exp")):
+                corpus.append((os.path.join(cdir, fn), open(os.path.join(cdir, fn)).read(), open(os.path.join(cdir, fn[:-4] + ".exp")).read(), None))
+    progs = corpus + progs
+    modes = ["", "--caches-off", "--gc every:1 --full 1", "--gc every:3 --full 1", "--caches-off --gc every:2"]
+    if not ctx.quick():
+        modes += ["--gc every:2 --full 1", "--gc coin:1/3:%d --full 1" % ctx.seed, "--gc every:5"]
+    for mode in modes:
+        runs = common.run_batch(["%s --steps 400000 %s" % (mode, f) for f, _, _, _ in progs])
+        for (f, src, exp, prog), r in zip(progs, runs):
+            ctx.count_case((src, mode), nontrivial=True)
+            if r["status"] != "Ok:0" or r["stdout"] != exp:
+                ctx.cov["impl_vs_spec_failures"] += 1
+                payload = {"kind": "implementation-vs-spec",
+                           "what": "a property/invoke/super site did not behave like the slow-path lookup",
+                           "mode": mode or "default", "found_in": os.path.basename(f)}
+                if prog is not None:
+                    tmp = os.path.join(d, "shrink.lay")
+                    events = shrink(prog, mode, tmp)
+                    still, src2, exp2, r2 = _fails(prog, events, mode, tmp)
+                    if still:
+                        src, exp, r = src2, exp2, r2
+                        payload["events_before_shrinking"] = len(prog["events"])
+                        payload["events"] = len(events)
+                payload.update({"program": src, "expected": exp, "status": r["status"], "stdout": r["stdout"], "stderr": r["stderr"][-600:]})
+                if broken:
+                    payload["proof_obligation_broken_too"] = broken[0]
+                    payload["proof_detail"] = broken[1][-1500:]
+                ctx.violation("sites", payload)
+                return True
+        ctx.stream_stat("sites", programs=len(progs), runs=len(progs))
+    ctx.stream_stat("sites", site_programs=sum(1 for p in progs if p[3] and p[3]["kind"] == "sites"),
+                    write_programs=sum(1 for p in progs if p[3] and p[3]["kind"] == "writes"), corpus=len(corpus),
+                    write_site_executions_first=wstats.get("first", 0), write_site_executions_hit=wstats.get("hit", 0),
+                    write_site_executions_refill=wstats.get("refill", 0), write_site_executions_error=wstats.get("error", 0))
+    ctx.sample({"program": progs[len(corpus)][1][:1500], "expected": progs[len(corpus)][2]})
+    wfirst = next(p for p in progs if p[3] and p[3]["kind"] == "writes")
+    ctx.sample({"program": wfirst[1][:2500], "expected": wfirst[2]})
+    files = sched_stream.write_generated(ctx, ctx.n(120, 3000), "gen") + sched_stream.fixture_programs(ctx.n(260, None))
+    n_before = len(ctx.violations)
+    if not sched_stream.compare_modes(ctx, "cache_off", files, ["--caches-off"], steps=300000, what="inline caches being enabled"):
+        return len(ctx.violations) > n_before
+    return False
 
 
 def replay(path):
